@@ -8,6 +8,7 @@ void* vr_exc_alloc(uint64_t n){ void* p = malloc(n); __CPROVER_assume(p != 0); r
 void vr_terminate(void){ __CPROVER_assert(0, "std::terminate reached"); __CPROVER_assume(0); }
 void vr_trap(void){ __CPROVER_assert(0, "llvm.trap reached"); __CPROVER_assume(0); }
 void vr_unreachable(void){ __CPROVER_assert(0, "IR unreachable reached"); __CPROVER_assume(0); }
+void vr_bad_icall(void){ __CPROVER_assert(0, "indirect call to unknown function"); __CPROVER_assume(0); }
 uint64_t nondet_u64(void);
 uint64_t vr_nondet_u64(void){ return nondet_u64(); }
 #else
@@ -15,6 +16,7 @@ void* vr_exc_alloc(uint64_t n){ return malloc(n); }
 void vr_terminate(void){ fprintf(stderr, "vr_terminate\n"); abort(); }
 void vr_trap(void){ fprintf(stderr, "vr_trap\n"); abort(); }
 void vr_unreachable(void){ fprintf(stderr, "vr_unreachable\n"); abort(); }
+void vr_bad_icall(void){ fprintf(stderr, "vr_bad_icall\n"); abort(); }
 uint64_t vr_nondet_u64(void){ return 0; }
 #endif
 
